@@ -23,9 +23,25 @@ Known findings: D11 (bare value expressions / improper operands are returned, no
 in a tuple/list bound of a range are not substituted).  Both are mirrored by the model, not by the specification
 answer (`reject` / deep substitution), so they show up as I == M != S and are classified.
 
-Mutation sanity check (GUIDE step 7), each on a scratch copy with VERIF_REPO=/var/tmp/mut_cqe_N, all caught as
-VIOLATION with a replay: see the list at the end of this docstring (filled in after the runs).
-MUTATIONS
+Mutation sanity check (GUIDE step 7): 16 semantic mutations of hypatia/query/__init__.py, each in a scratch copy
+(VERIF_REPO=/var/tmp/mut_cqe_N, deleted afterwards), all 16 reported VIOLATION with a concrete replay:
+  M1  5-child Compare takes end_exclusive from op1 (needs a range with different flags)   caught (exec/parse)
+  M2  BoolOp.__init__ stops promoting same-class operands (needs nested same-op)           caught (parse: or 2 or 2 ..)
+  M3  process_NotIn forgets .negate() for any()/all()                                      caught (parse: any vs notany)
+  M4  _get_value does not descend into tuples (needs a name inside a tuple)                caught (subst)
+  M5  Comparator.__eq__ ignores the class                                                  caught (qeq: AttributeError / true)
+  M6  process_BitOr returns And                                                            caught (parse)
+  M7  process_List does not wrap names (ast.Name left inside lists)                        caught (exec/parse)
+  M8  any()/all() swapped in process_Call                                                  caught (parse)
+  M9  several statements: the first is taken instead of ValueError                         caught (first a drift on the exception
+      class, then the neighbourhood search found `q; 0` accepted)
+  M10 _Range.__eq__ ignores end_exclusive                                                  caught (qeq)
+  M11 process_LtE builds Lt                                                                caught (parse/exec)
+  M12 unhandled node types are skipped (None) instead of ValueError                        caught (`{}` -> None accepted)
+  M13 BoolOp.__eq__ compares only the operand count                                        caught (qeq)
+  M14 containment takes the index from the left operand                                    caught (parse `a in b`)
+  M15 5-child Compare accepts Gt/Ge chains                                                 caught (`a < k > 5` accepted as InRange)
+  M16 Name.__eq__ is True for any two Names                                                caught (qeq)
 """
 import ast
 import io
@@ -48,8 +64,8 @@ THEOREMS = ["Hyp.Cqe." + t for t in (
     "c10_outside_language_rejected", "c10_outside_language_partial", "c10_d11_top_level", "c10_d11_not_value",
     "c10_d11_query_as_value", "c10_subst", "c10_subst_error_iff", "c10_leaf_resolution",
     "c10_constant_values_unchanged", "c10_range_subst_partial", "c10_d17_witness", "c10_eq_is_structural",
-    "c10_structEq_refl", "c10_eq_only_on_fragment", "c10_parsed_equals_hand_built")]
-CASES = {"quick": 2400, "thorough": 120000}
+    "c10_structEq_refl", "c10_eq_only_on_fragment", "c10_parsed_equals_hand_built", "c10_embeds_in_query_algebra")]
+CASES = {"quick": 8000, "thorough": 300000}
 BUDGET_S = {"quick": 40, "thorough": 700}
 BATCH = 40
 RULE = "filled below"
@@ -650,7 +666,10 @@ class Impl(object):
             except Exception as e:
                 return exc_name(e)
             a, b = self.show(parsed), self.show(built)
-            eq, ne = parsed == built, parsed != built
+            try:
+                eq, ne = parsed == built, parsed != built
+            except Exception as e:
+                return "eq-raised " + exc_name(e)
             if (eq is not True and eq is not False) or ne is not (not eq):
                 return "inconsistent eq=%r ne=%r" % (eq, ne)
             return ("same" if a == b else "differ " + a) + " eq=%d" % (1 if eq else 0)
@@ -681,7 +700,10 @@ class Impl(object):
         if op == "qeq":
             a, j = self.build_w(toks, 1, self.cat)
             b, j = self.build_w(toks, j, self.cat)
-            eq, ne = a == b, a != b
+            try:
+                eq, ne = a == b, a != b
+            except Exception as e:
+                return "eq-raised " + exc_name(e)
             if (eq is not True and eq is not False) or ne is not (not eq):
                 return "inconsistent eq=%r ne=%r" % (eq, ne)
             return "true" if eq else "false"
@@ -911,8 +933,52 @@ def tokens_of(src):
         return src.split(" ")
 
 
+CLS_CMP = ["==", "!=", "<", "<=", ">", ">=", "in", "not in", "is", "is not"]
+CLS_BOOL = ["and", "or", "&", "|", "^", "+", "-", "*", "@", "//", "<<", "if x else"]
+CLS_NAME = CAT_NAMES + ["zz", "x", "y", "foo", "all", "a.b", "any.x", "x.y.z", "None", "True", "__debug__"]
+CLS_LIT = ["1", "-1", "+1", "- -1", "-x", "~1", "1.5", "-0.0", "1e999", "'s'", "'a' 'b'", "None", "True", "-True",
+           "[1]", "[x, [y]]", "(x,)", "()", "(1, 2)", "1j", "-1j", "...", "b'x'", "f'{x}'", "f''", "{1}", "{}", "{1: 2}",
+           "x[0]", "x[0:1]", "(lambda: 1)", "(x if y else z)", "[*x]", "(yield)", "(x := 1)", "[i for i in x]",
+           "(i for i in x)", "any([1])", "all(x)", "any(1, 2)", "any()", "any(x=1)", "any(*x)", "foo(1)", "any.x([1])",
+           "(any)([1])", "(1).foo", "x.y", "(a == 1)", "(not x)", "(a == 1).foo", "-'s'", "-None", "-[1]", "not 1",
+           "(await x)", "x @ y", "x ** 2", "1 + 2"]
+WRAPS = ["not %s", "not (%s)", "%s and 1", "1 or %s", "%s,", "[%s]", "(%s).foo", "(%s).x == 1", "any(%s)",
+         "a in any(%s)", "a not in all(%s)", "%s if a else b", "%s; %s", "%s\n%s", "x = %s", "-(%s)", "~(%s)", "+(%s)",
+         "a == (%s)", "(%s) == 1", "1 < (%s) < 2", "(%s) & (%s)", "(%s) | 1", "1 & (%s)", "(%s) ^ (a == 1)",
+         "(%s) + (a == 1)", " %s", "%s ", "\t%s", "(%s", "%s)", "%s #c", "lambda: %s", "(%s) is None", "not not %s",
+         "(%s) and (%s) or not (%s)", "[%s for x in y]", "(%s)()", "{%s}", "*%s", "%s = 1", "del %s", "assert %s",
+         "return %s", "(%s) in a", "(%s) in any([1])", "a < (%s)", "%s\n", "\n%s", "%s\n\n", "(\n%s\n)", "%s \\\n"]
+
+
+def token_class(t):
+    if t in ("==", "!=", "<", "<=", ">", ">=", "in", "is"):
+        return "cmp"
+    if t in ("and", "or", "&", "|"):
+        return "bool"
+    if t in ("not", "(", ")", "[", "]", ",", ".", "-", "+"):
+        return None
+    if t[:1].isalpha() or t[:1] == "_":
+        return "name"
+    return "lit"
+
+
 def mutate(rng, src):
+    r0 = rng.random()
+    if r0 < 0.2:
+        w = rng.choice(WRAPS)
+        return w.replace("%s", src)
     toks = tokens_of(src)
+    if r0 < 0.55:
+        # class-preserving replacement: the string mostly stays syntactically valid
+        idxs = [i for i, t in enumerate(toks) if token_class(t)]
+        for _ in range(rng.choice([1, 1, 2])):
+            if not idxs:
+                break
+            i = rng.choice(idxs)
+            c = token_class(toks[i])
+            if c is not None:
+                toks[i] = rng.choice({"cmp": CLS_CMP, "bool": CLS_BOOL, "name": CLS_NAME, "lit": CLS_LIT}[c])
+        return " ".join(toks)
     for _ in range(rng.choice([1, 1, 1, 2, 2, 3])):
         r = rng.random()
         if r < 0.25 and toks:
@@ -1126,6 +1192,9 @@ def features(case, outs):
             if o.startswith("ok"):
                 head = o.split(" ")[1]
                 f.append("parse-%s:ok-%s" % (kind, head if head in ("cmp", "range", "and", "or", "not") else "nonquery"))
+                if kind == "mutated" and (head not in ("cmp", "range", "and", "or", "not") or "<function>" in o
+                                          or " N:" in o):
+                    f.append(d11_kind(o))
                 toks = o.split(" ")
                 for t in toks:
                     if t in CMPS:
@@ -1175,6 +1244,35 @@ def features(case, outs):
     return f
 
 
+def neighbourhood(rng, case):
+    """variants of a diverging parse command: looks for an input where the implementation's answer also
+    contradicts the specification (e.g. accepts text outside the language), not only the model's exception class"""
+    cmds = [c for c in case["cmds"] if c[0] == "parse"]
+    if not cmds:
+        return case
+    src = unhx(str(rng.choice(cmds)[1]))
+    r = rng.random()
+    good = lambda: spell(gen_sx(rng, rng.choice([0, 1]), True), rng)
+    if r < 0.3:
+        out = mutate(rng, src)
+    elif r < 0.6:
+        # keep the shape, use names the catalog knows and valid operands
+        toks = tokens_of(src)
+        for i, t in enumerate(toks):
+            if token_class(t) == "name" and t not in ("any", "all") and rng.random() < 0.8:
+                toks[i] = rng.choice(["a", "b", "k", "t"])
+        out = " ".join(toks)
+    elif r < 0.8:
+        parts = [p for p in src.replace("\n", ";").split(";")]
+        out = "; ".join(good() if rng.random() < 0.7 else p for p in parts)
+    else:
+        out = rng.choice(WRAPS).replace("%s", good())
+    return make_case([["parse", hx(out)]]) if out else case
+
+
+NEIGHBOURHOOD_TRIES = 400
+
+
 def shrink_more(case, fails):
     """keep one command; for parse commands shrink the source string"""
     cmds = case["cmds"]
@@ -1215,13 +1313,50 @@ def _chunk(args):
     return [srcs[o.idx] for o in bad][:3], len(srcs), feats
 
 
+def doc_examples(hyp):
+    """the spellings the class docstrings document (`CQE equivalent: ...`), with `index` renamed to `a`"""
+    import re
+    from hypatia import query as Q
+    out = []
+    for cname in list(CLASSNAME.values()) + ["InRange", "NotInRange"]:
+        m = re.search(r"CQE equivalent:\s*(.*(?:\n\s{10,}\S.*)*)", getattr(Q, cname).__doc__ or "")
+        if not m:
+            continue
+        for line in m.group(1).split("\n"):
+            e = line.strip()
+            repaired = e.count("'") % 2 == 1          # the Le docstring lacks the closing quote
+            if repaired:
+                e += "'"
+            out.append((cname, re.sub(r"\bindex\b", "a", e), repaired))
+    return out
+
+
 def extra(hyp, tier, seed):
     from concurrent.futures import ProcessPoolExecutor
     from itertools import product
     import multiprocessing
     from lib import core
+    docfails, docviol, docfeats, ndoc = [], [], {}, 0
+    im = impl_for(hyp)
+    for cname, e, repaired in doc_examples(hyp):
+        ndoc += 1
+        case = make_case([["parse", hx(e)]])
+        iouts, outs = core.evaluate(sys.modules[__name__], hyp, case)
+        if core.bad_outcomes(outs):
+            docfails.append(case)
+        try:
+            got = type(im.Q.parse_query(e, im.cat)).__name__          # as documented: default optimisation
+        except Exception as ex:
+            got = exc_name(ex)
+        k = "doc-example:%s:%s%s" % (cname, "ok" if got == cname else "GOT-" + got, "-quote-repaired" if repaired else "")
+        docfeats[k] = docfeats.get(k, 0) + 1
+        if got != cname:
+            docviol.append(({"property": ID, "verdict": "failing-input", "origin": "documented spelling",
+                             "case": case, "commands": core.case_lines(case),
+                             "explanation": "the docstring of %s documents the spelling %r, which parses to %s"
+                                            % (cname, e, got)}, ""))
     maxlen = 4 if tier == "quick" else 5
-    alpha = ALPHABET[:13] + ["&", "-"] if tier == "quick" else ALPHABET
+    alpha = ALPHABET[:13] + ["&", "-"] if tier == "quick" else ALPHABET[:18]
     srcs = []
     for n in range(1, maxlen + 1):
         for combo in product(alpha, repeat=n):
@@ -1230,7 +1365,8 @@ def extra(hyp, tier, seed):
     ctx = multiprocessing.get_context("fork")
     with ProcessPoolExecutor(max_workers=core.NCPU, mp_context=ctx) as ex:
         res = list(ex.map(_chunk, chunks))
-    fails, feats, n = [], {"exhaustive-token-strings<=%d-over-%d-tokens" % (maxlen, len(alpha)): len(srcs)}, 0
+    fails, feats, n = list(docfails), dict(docfeats), ndoc
+    feats["exhaustive-token-strings<=%d-over-%d-tokens" % (maxlen, len(alpha))] = len(srcs)
     for bad, k, f in res:
         n += k
         for key, v in f.items():
@@ -1238,7 +1374,7 @@ def extra(hyp, tier, seed):
         for s in bad:
             if len(fails) < 3:
                 fails.append(make_case([["parse", hx(s)]]))
-    return {"evaluations": n, "features": feats, "failures": fails}
+    return {"evaluations": n, "features": feats, "failures": fails, "violations": docviol}
 
 
 RULE = ("each case = one generated spelling s (12 comparators, ranges, and/or/not, &/|, nesting to depth 3, values: "
@@ -1248,8 +1384,9 @@ RULE = ("each case = one generated spelling s (12 comparators, ranges, and/or/no
         "by the harness' renderer and by hypatia's ==), parse, exec with random names on spy indexes, run on a real "
         "catalog, 2-4 token-level mutations (delete/duplicate/swap/replace/insert) of the string through the real "
         "ast.parse and both walks, 2 qeq pairs (tree vs perturbed copy incl. Python-equal constants of other types), "
-        "1 subst; extra: every string of <= 4 (thorough 5) tokens over a 15 (20) token alphabet; non-trivial = the "
-        "case has an accepted And/Or tree and a rejected string")
+        "1 subst; extra: the 16 spellings documented in the class docstrings parse to the documenting class; every "
+        "string of <= 4 (thorough 5) tokens over a 15 (18) token alphabet; non-trivial = the case has an accepted "
+        "And/Or tree and a rejected string")
 LEVEL_TEXT = ("Lean 4 theorems for all ASTs / all spellings / all trees / all names mappings: the walk of the AST of "
               "every spelling returns exactly the hand-built tree; conversely every AST whose walk returns a query "
               "tree over proper values is the AST of a spelling with that tree (nothing outside the language maps "
